@@ -122,7 +122,10 @@ def ref_term_scores(docs, schema_spec, field, word, w):
         lens[d["k"]] = len(toks)
         c = toks.count(word)
         if c:
-            tf[d["k"]] = f32(c * fboost * (d.get("boost") or 1.0))
+            dboost = d.get("boost") or 1.0
+            if field == "t" and d.get("tboost") is not None:
+                dboost = d["tboost"]   # _t_boost stands in for the document boost, for this field only
+            tf[d["k"]] = f32(c * fboost * dboost)
     if not tf:
         return {}
     n = len(tf)
